@@ -158,10 +158,19 @@ def Max(a, b):
     return z3.If(a >= b, a, b)
 
 
+def _of_int(t):
+    """x if t is to_real(x)"""
+    if z3.is_app_of(t, z3.Z3_OP_TO_REAL):
+        return t.arg(0)
+    return None
+
+
 def trunc_int(t):
     """int(x) for a Real term: truncation toward zero."""
     if z3.is_int(t):
         return t
+    if _of_int(t) is not None:
+        return _of_int(t)
     return z3.If(t >= 0, z3.ToInt(t), -z3.ToInt(-t))
 
 
@@ -181,6 +190,8 @@ def round_half_even(t):
     """Python round() / np.round / np.rint on a Real term -> Int term."""
     if z3.is_int(t):
         return t
+    if _of_int(t) is not None:
+        return _of_int(t)
     f = z3.ToInt(t)
     frac = t - z3.ToReal(f)
     half = z3.RealVal("1/2")
